@@ -27,6 +27,8 @@ CLASS_SHAPE = {
     "version": re.compile(r"^\d+\.\d+(?:\.\d+)?(?:[-+][A-Za-z0-9.]+)?\Z"),
     "variable": re.compile(r"^\$[A-Za-z0-9_]+(?::[A-Za-z_]\w*)?\Z"),
     "expr": re.compile(r"^%s(?:[%s]%s)+\Z" % (_W, OPS, _W)),
+    "multiword_mixed": re.compile(
+        r'^(?!(?:true|false|null|vs)\b)' + _W + r'(?: (?:(?!vs\b)' + _W + r'|42|3\.14|1\.2\.3|"[^"\\\n\t]*"))+\Z'),
 }
 
 
@@ -224,7 +226,20 @@ class Lenient:
         if self.take("triple_quotes", 0.25 * self.level):
             line, col = o.pos()
             self.rewrites.append({"type": "normalization", "original": '"""', "normalized": s, "line": line, "column": col})
-            o.w('"""' + esc(s) + '"""')
+            body = esc(s)
+            if self.take("triple_raw_newline_or_quote", 0.6):
+                # GH#63: a triple-quoted string may hold raw newlines and single quote characters
+                out = []
+                for i, ch in enumerate(s):
+                    nxt = s[i + 1:]
+                    if ch == "\n" and not re.match(r" *```", nxt) and self.r.random() < 0.7:
+                        out.append("\n")
+                    elif ch == '"' and nxt and not nxt.startswith('"') and self.r.random() < 0.7:
+                        out.append('"')
+                    else:
+                        out.append(esc(ch))
+                body = "".join(out)
+            o.w('"""' + body + '"""')
         else:
             o.w(q(s))
 
@@ -270,6 +285,17 @@ class Lenient:
             name, args = s[:-1].split("<")
             if self.take("constructor_brackets", 0.7):
                 return o.w(f"{name}[{args}]")
+            return o.w(s)
+        if cls == "multiword_mixed" and bare_ok():
+            # words, numbers, versions, literals and quoted words in one bare value (#140/#141): coalesced into the
+            # source tokens joined by one space, quotes kept
+            line, col = o.pos()
+            toks = re.findall(r'"[^"]*"|\S+', s)
+            self.rewrites.append({"type": "lenient_parse", "subtype": "multi_word_coalesce", "original": toks,
+                                  "result": s, "line": line, "column": col})
+            for t in toks:
+                if t.startswith('"'):
+                    self.count_protected(t)
             return o.w(s)
         if cls == "multiword" and all(is_plain_word(w) for w in s.split(" ")) and " " in s and bare_ok():
             line, col = o.pos()
